@@ -18,6 +18,7 @@
 #include <unistd.h>
 #include <sys/wait.h>
 #include <signal.h>
+#include <fcntl.h>
 #define private public
 #define protected public
 #include "CppUTest/TestHarness.h"
@@ -124,13 +125,14 @@ static unsigned long strayFails;     // reports raised where no test can be fail
 class ScriptTest : public Utest
 {
 public:
-    virtual void testBody() { if (!dryRun) runOps(thr0); }
+    size_t start_;                   // first operation of this test's segment of thread 0's script
+    virtual void testBody() { if (!dryRun) { thr0->pc = start_; runOps(thr0); } }
 };
 class ScriptShell : public UtestShell
 {
 public:
     ScriptTest test_;
-    ScriptShell() : UtestShell("C10", "script", "c10_script.cpp", 1) {}
+    ScriptShell(size_t start) : UtestShell("C10", "script", "c10_script.cpp", 1) { test_.start_ = start; }
     virtual Utest* createTest() { return &test_; }          // no allocation by the framework itself during the run
     virtual void destroyTest(Utest*) {}
 };
@@ -141,7 +143,7 @@ public:
     virtual void flush() {}
     virtual void printFailure(const TestFailure&)
     {
-        if (outAlloc && !dryRun) { char* p = new char[24]; p[0] = 1; delete[] p; outAllocs++; }
+        if (outAlloc && !dryRun) { void* p = ::operator new[](24); memset(p, 1, 24); ::operator delete[](p); outAllocs++; }   // calls, not a new-expression the compiler may elide
     }
 };
 // reports raised on the thread that runs the tests go to the real reporter (it fails the running test and leaves it);
@@ -204,7 +206,10 @@ static void scenarioChild(Toks& t, int wfd)
     TestResult* result = new TestResult(*out);
     TestRegistry* reg = new TestRegistry;
     ScriptShell** shells = (ScriptShell**) calloc(ntests, sizeof(ScriptShell*));
-    for (size_t i = 0; i < ntests; i++) shells[i] = new ScriptShell;
+    {
+        size_t seg = 0; shells[0] = new ScriptShell(0);
+        for (size_t j = 0; j < thr[0].nops; j++) if (thr[0].ops[j].kind == 't') shells[++seg] = new ScriptShell(j + 1);
+    }
     for (size_t i = ntests; i-- > 0;) reg->addTest(shells[i]);      // addTest prepends: add the last test first
 
     MemoryLeakWarningPlugin::turnOnThreadSafeNewDeleteOverloads();
@@ -215,24 +220,12 @@ static void scenarioChild(Toks& t, int wfd)
 
     size_t n0 = d->totalMemoryLeaks(mem_leak_period_all);
     unsigned seq0 = d->getCurrentAllocationNumber();
+    inTest = 1;
     for (unsigned i = 1; i < n; i++) pthread_create(&thr[i].th, nullptr, threadMain, &thr[i]);
     __atomic_store_n(&startFlag, 1, __ATOMIC_RELEASE);
-    // thread 0: one registered test per segment of its script; a segment ends at ":t"
-    inTest = 1;
-    {
-        // runAllTests runs the shells in order; each body continues the script where the previous test stopped
-        // (after a misuse the rest of the segment is skipped: advance pc to the next ":t")
-        struct Adv { static void toNext(Thr* t) { while (t->pc < t->nops && t->ops[t->pc].kind != 't') t->pc++; if (t->pc < t->nops) t->pc++; } };
-        for (UtestShell* sh = reg->tests_; sh; sh = sh->getNext()) {
-            result->countTest();
-            result->currentTestStarted(sh);
-            sh->runOneTest(reg->firstPlugin_, *result);
-            result->currentTestEnded(sh);
-            Adv::toNext(thr0);
-        }
-    }
-    inTest = 0;
+    reg->runAllTests(*result);          // thread 0: one registered test per segment of its script
     for (unsigned i = 1; i < n; i++) pthread_join(thr[i].th, nullptr);
+    inTest = 0;
     size_t n1 = d->totalMemoryLeaks(mem_leak_period_all);
     unsigned seq1 = d->getCurrentAllocationNumber();
 
